@@ -1,8 +1,9 @@
 (* Property C16 - component assets = own class plus the bases selected by Media.extend.
    Only statements here; proofs live in Media/Proofs.v.  Model: Media/Model.v.
    The model is run per media type k (0 = js, k > 0 = a CSS medium); `flatten` / `eager` select the variant:
-   current_flatten = true, current_eager = false describe /repo's code as it is. *)
-From DJC Require Import Lib.Base Media.Model Media.Proofs.
+   current_flatten = false, current_eager = true describe /repo's code as it is (after commits a5a18f6, 488c746).
+   The two defects of the code before those commits are machine-checked lemmas in Media/History.v. *)
+From DJC Require Import Lib.Base Media.Model Media.Proofs Media.Complete Media.History.
 
 (* Files: for every table, class, media type and BOTH variants, `Cls.media` holds each file once, and holds
    exactly the files declared by the class itself and, transitively, by the bases selected by Media.extend. *)
@@ -14,80 +15,31 @@ Proof. exact files_eq_spec. Qed.
 Print Assumptions media_files_eq_spec.
 
 (* Histories: from a fresh process, for EVERY sequence of .media / .template / .js / .css / ..._file accesses on
-   any classes, the work-stack + global memo never runs out of fuel, never fails, and every access returns the
-   history-free value `ideal` (media = the S-model `spec`, attribute = nearest defining pair in the MRO).
-   _partial: for the code as it is this needs `no_relative` (no Media path names a file lying beside the
-   component module); without it the full statement is refuted below. *)
-Theorem access_order_independent_partial : forall t k h,
-  wf t = true -> create_error t = None -> no_relative t = true ->
+   any classes of any well-formed, creatable table, the work-stack + process-global memo never runs out of fuel,
+   never fails, and every access returns the history-free value `ideal` (media = the S-model `spec`, attribute =
+   nearest defining pair in the MRO): the result does not depend on what was accessed before. *)
+Theorem access_order_independent : forall t k h,
+  wf t = true -> create_error t = None ->
   (forall a, In a h -> cls_of a < length t) ->
   exists st, run current_flatten current_eager t k init h =
              Some (st, map (ideal current_flatten current_eager t k) h).
-Proof. intros t k h Hwf Hok Hrel. exact (history_independent _ _ t k Hwf (or_intror Hrel) Hok h). Qed.
-Print Assumptions access_order_independent_partial.
+Proof. intros t k h Hwf Hok. exact (history_independent _ _ t k Hwf (or_introl eq_refl) Hok h). Qed.
+Print Assumptions access_order_independent.
 
-(* ... and the full statement holds, for both merge variants, once the class is resolved before its Media is read
-   (candidate repair notes/fixes/C16-resolve-before-media.patch). *)
-Theorem access_order_independent_after_repair : forall flatten t k h,
-  wf t = true -> create_error t = None ->
-  (forall a, In a h -> cls_of a < length t) ->
-  exists st, run flatten true t k init h = Some (st, map (ideal flatten true t k) h).
-Proof. intros flatten t k h Hwf Hok. exact (history_independent _ _ t k Hwf (or_introl eq_refl) Hok h). Qed.
-Print Assumptions access_order_independent_after_repair.
-
-(* Current code: `Cls.media` read before / after `Cls.template` differs when a Media file lies beside the module
-   (class 3 = class C(Component): template = "v1"; Media.js = ["f1.js", "f2.js"], f1.js exists beside the module). *)
-Theorem access_order_independent_refuted : exists t k h c,
-  wf t = true /\ create_error t = None /\ c < length t /\
-  result_after current_flatten current_eager t k [] (AMedia c) = Some (RMedia [1; 2]%N) /\
-  result_after current_flatten current_eager t k h (AMedia c) = Some (RMedia [101; 2]%N).
-Proof.
-  exists [Cls [] false None [] (None, None) (None, None) (None, None);
-          Cls [0] false None [] (None, None) (None, None) (None, None);
-          Cls [1] true None [] (None, None) (None, None) (None, None);
-          Cls [2] true (Some (MDecl ExtAll [(0%N, [1; 2]%N)])) [(1%N, 101%N)] (Some 1%N, None) (None, None) (None, None)],
-         0%N, [AAttr 3 PTpl false], 3.
-  vm_compute. repeat split; auto.
-Qed.
-Print Assumptions access_order_independent_refuted.
-
-(* Order, current code: REFUTED.  A(Component): js=[1]; B(A): js=[2,3]; C(B): js=[3,1].  The declared lists are all
-   subsequences of [2,3,1], but C.media._js = [3,1,2] breaks B's [2,3] (B's level was flattened to [2,1,3], which
-   conflicts with [3,1]; Django's merge then falls back to concatenation). *)
-Theorem order_consistent_refuted : exists t k c d,
-  wf t = true /\ create_error t = None /\ no_relative t = true /\
-  consistent (map (declared current_eager t k) (contributors t c)) /\
-  In d (contributors t c) /\
-  subseqb (declared current_eager t k d) (observe (spec current_flatten current_eager t k c)) = false.
-Proof.
-  exists [Cls [] false None [] (None, None) (None, None) (None, None);
-          Cls [0] false None [] (None, None) (None, None) (None, None);
-          Cls [1] true None [] (None, None) (None, None) (None, None);
-          Cls [2] true (Some (MDecl ExtAll [(0%N, [1]%N)])) [] (None, None) (None, None) (None, None);
-          Cls [3] true (Some (MDecl ExtAll [(0%N, [2; 3]%N)])) [] (None, None) (None, None) (None, None);
-          Cls [4] true (Some (MDecl ExtAll [(0%N, [3; 1]%N)])) [] (None, None) (None, None) (None, None)],
-         0%N, 5, 4.
-  split; [reflexivity|]. split; [vm_compute; reflexivity|]. split; [reflexivity|]. split.
-  - exists [2; 3; 1]%N. split.
-    + repeat constructor; cbn; intuition discriminate.
-    + vm_compute. intros l H. repeat (destruct H as [<- | H]; [reflexivity|]). contradiction.
-  - split; [vm_compute; auto | vm_compute; reflexivity].
-Qed.
-Print Assumptions order_consistent_refuted.
-
-(* Order, current code, _partial: restricted by the trigger class of the defect.  As long as no merge on the way
-   (nor the final one) fell back to concatenation - i.e. no MediaOrderConflictWarning was emitted - every
-   duplicate-free declared list of every contributing class is a subsequence of the result.
-   Missing for the full statement: "mutually consistent lists never reach the fallback" is false for the
-   per-level flattening (refuted above); for the candidate repair (flatten = false) it is Kahn completeness on
-   acyclic chains, not proved here. *)
-Theorem order_consistent_partial : forall eager t k c,
-  snd (spec true eager t k c) = false -> snd (merge (fst (spec true eager t k c))) = false ->
-  (forall d, In d (contributors t c) -> NoDup (declared eager t k d)) ->
+(* Order: whenever the lists declared (for one media type) by the contributing classes are mutually consistent -
+   all subsequences of one duplicate-free list - every one of them is a subsequence of the result.
+   (Rests on merge_complete: graphlib's Kahn run never reaches the CycleError fallback on such lists.) *)
+Theorem order_consistent : forall t k c,
+  consistent (map (declared current_eager t k) (contributors t c)) ->
   forall d, In d (contributors t c) ->
-  subseqb (declared eager t k d) (observe (spec true eager t k c)) = true.
-Proof. exact order_when_no_conflict. Qed.
-Print Assumptions order_consistent_partial.
+  subseqb (declared current_eager t k d) (observe (spec current_flatten current_eager t k c)) = true.
+Proof. exact (order_consistent_unflat current_eager). Qed.
+Print Assumptions order_consistent.
+
+(* Media.merge never emits MediaOrderConflictWarning (never falls back to concatenation) on mutually consistent lists. *)
+Theorem merge_complete : forall ls, consistent ls -> snd (merge ls) = false.
+Proof. exact Complete.merge_complete. Qed.
+Print Assumptions merge_complete.
 
 (* Django's merge itself, any lists: duplicate-free result with exactly the given files; when it did not warn,
    every duplicate-free input list is a subsequence of the result (Kahn's algorithm in graphlib's order). *)
@@ -120,8 +72,8 @@ Theorem both_members_rejected : forall t i cl p,
 Proof. exact both_rejected. Qed.
 Print Assumptions both_members_rejected.
 
-(* Non-vacuity: a diamond (A js=[1], B js=[2], C(A, B) js=[3,1]) is well formed, creatable, conflict-free, and the
-   premises of the theorems above hold for it; C gets [3,2,1] (graphlib emits whole ready groups). *)
+(* Non-vacuity: a diamond (A js=[1], B js=[2], C(A, B) js=[3,1]) is well formed, creatable, its declared lists are mutually consistent
+   (all subsequences of [3,1,2]), and the premises of the theorems above hold for it; C gets [3,2,1] (graphlib emits whole ready groups). *)
 Example premises_satisfiable :
   let t := [Cls [] false None [] (None, None) (None, None) (None, None);
             Cls [0] false None [] (None, None) (None, None) (None, None);
@@ -130,10 +82,13 @@ Example premises_satisfiable :
             Cls [2] true (Some (MDecl ExtAll [(0%N, [2]%N)])) [] (None, None) (None, Some (8%N, 9%N)) (None, None);
             Cls [3; 4] true (Some (MDecl ExtAll [(0%N, [3; 1]%N)])) [] (None, None) (None, None) (None, None)] in
   wf t = true /\ create_error t = None /\ no_relative t = true /\
-  snd (spec true false t 0%N 5) = false /\ snd (merge (fst (spec true false t 0%N 5))) = false /\
-  observe (spec true false t 0%N 5) = [3; 2; 1]%N /\ contributors t 5 = [5; 3; 2; 1; 0; 4; 2; 1; 0] /\
+  (forall l, In l (map (declared current_eager t 0%N) (contributors t 5)) -> subseqb l [3; 1; 2]%N = true) /\
+  observe (spec current_flatten current_eager t 0%N 5) = [3; 2; 1]%N /\ contributors t 5 = [5; 3; 2; 1; 0; 4; 2; 1; 0] /\
   attr_spec t 5 PJs false = Some 7%N /\ mro_of t 5 = Some [5; 3; 4; 2; 1; 0].
-Proof. vm_compute. repeat split. Qed.
+Proof.
+  vm_compute. repeat split.
+  intros l H. repeat (destruct H as [<- | H]; [reflexivity|]). contradiction.
+Qed.
 
 Example both_members_example :
   create_error [Cls [] false None [] (None, None) (None, None) (None, None);
